@@ -6,65 +6,239 @@ import Rtcp.Proofs.CompoundParse
 import Rtcp.Proofs.RoundTrip
 import Rtcp.Proofs.SdesEncode
 import Rtcp.Proofs.ParsersDispatch
+import Rtcp.Proofs.ParsersFraming
 
 namespace Rtcp.Proofs
 open Rtcp Rtcp.Impl Rtcp.Spec
 
 
+theorem lengthField_append (t rest : Bytes) (h : 4 ≤ t.length) :
+    lengthField (t ++ rest) = lengthField t := by
+  unfold lengthField
+  simp only [List.getD_eq_getElem?_getD]
+  rw [List.getElem?_append_left (by omega), List.getElem?_append_left (by omega)]
+
 theorem tiling_flatten (imgs : List Bytes) (h : ∀ t ∈ imgs, Tile t) :
     tiling imgs.flatten = some imgs := by
-  sorry
+  induction imgs with
+  | nil => rfl
+  | cons t ts ih =>
+    obtain ⟨h4, hl⟩ := h t List.mem_cons_self
+    have ih' := ih (fun x hx => h x (List.mem_cons_of_mem _ hx))
+    rw [List.flatten_cons]
+    have hne : t ++ ts.flatten ≠ [] := by
+      intro e; have := congrArg List.length e
+      simp only [List.length_append, List.length_nil] at this; omega
+    rw [tiling_step _ hne, lengthField_append t _ h4, hl]
+    rw [if_neg (by simp only [List.length_append]; omega),
+      if_neg (by simp only [List.length_append]; omega)]
+    rw [List.drop_left, List.take_left, ih']
+    rfl
 
 theorem tiling_length_le (bs : Bytes) (ts : List Bytes) (h : tiling bs = some ts) :
     4 * ts.length ≤ bs.length := by
-  sorry
+  obtain ⟨hf, ht⟩ := tiling_sound bs ts h
+  subst hf
+  clear h
+  induction ts with
+  | nil => simp
+  | cons t ts ih =>
+    have h4 := (ht t List.mem_cons_self).1
+    have := ih (fun x hx => ht x (List.mem_cons_of_mem _ hx))
+    simp only [List.flatten_cons, List.length_append, List.length_cons]
+    omega
 
 theorem compound_parse_back {ε : Type} (imgs : List Bytes) (hne : imgs ≠ []) (h : ∀ t ∈ imgs, Tile t)
     (hnp : ∀ t ∈ imgs, Packet.parse t ≠ .panic) (fuel : Nat) (hf : imgs.length < fuel) :
     Compound.parse imgs.flatten = .ok ⟨imgs.flatten, 0, false⟩ ∧
     ∃ items c', (Compound.collect fuel ⟨imgs.flatten, 0, false⟩ [] : R ε _) = .ok (items, true, c') ∧
       items.map (·.1) = throughFirstErr (imgs.map Packet.parse) ∧ c'.isOver = true := by
-  sorry
+  have ht := tiling_flatten imgs h
+  have hne' : imgs.flatten ≠ [] := by
+    cases imgs with
+    | nil => exact absurd rfl hne
+    | cons t ts =>
+      have h4 := (h t List.mem_cons_self).1
+      intro e; have := congrArg List.length e
+      simp only [List.flatten_cons, List.length_append, List.length_nil] at this; omega
+  refine ⟨(compound_parse_ok_iff _ _).mpr ⟨rfl, hne', by rw [ht]; rfl⟩, ?_⟩
+  obtain ⟨items, c', e1, e2, _, e4⟩ := compound_iter (ε := ε) _ _ hne' ht hnp fuel hf
+  exact ⟨items, c', e1, e2, e4⟩
+
+theorem throughFirstErr_all_ok {ε α : Type} (l : List (R ε α)) (h : ∀ x ∈ l, ∃ a, x = .ok a) :
+    throughFirstErr l = l := by
+  induction l with
+  | nil => rfl
+  | cons x xs ih =>
+    obtain ⟨a, rfl⟩ := h x List.mem_cons_self
+    simp only [throughFirstErr]
+    rw [ih (fun y hy => h y (List.mem_cons_of_mem _ hy))]
 
 theorem compound_parse_back_all {ε : Type} (imgs : List Bytes) (hne : imgs ≠ []) (h : ∀ t ∈ imgs, Tile t)
     (hok : ∀ t ∈ imgs, ∃ p, Packet.parse t = .ok p) (fuel : Nat) (hf : imgs.length < fuel) :
     ∃ items c', (Compound.collect fuel ⟨imgs.flatten, 0, false⟩ [] : R ε _) = .ok (items, true, c') ∧
       items.map (·.1) = imgs.map Packet.parse ∧ items.length = imgs.length := by
-  sorry
+  have hnp : ∀ t ∈ imgs, Packet.parse t ≠ .panic := by
+    intro t ht e
+    obtain ⟨p, hp⟩ := hok t ht
+    rw [hp] at e; cases e
+  obtain ⟨_, items, c', e1, e2, _⟩ := compound_parse_back (ε := ε) imgs hne h hnp fuel hf
+  have e3 : throughFirstErr (imgs.map Packet.parse) = imgs.map Packet.parse := by
+    apply throughFirstErr_all_ok
+    intro x hx
+    obtain ⟨t, ht, rfl⟩ := List.mem_map.mp hx
+    exact hok t ht
+  rw [e3] at e2
+  refine ⟨items, c', e1, e2, ?_⟩
+  have := congrArg List.length e2
+  simpa only [List.length_map] using this
+
+/-! ## images are tiles -/
+
+open Rtcp.Proofs.Read Rtcp.Proofs.RT in
+theorem tile_packet (pt : UInt8) (c : Nat) (p : UInt8) (body : Bytes) (hf : Fits p body) :
+    Tile (packet pt c p body) :=
+  ⟨packet_len4 pt c p body, lengthField_packet pt c p body hf.hpad hf.hbody hf.hsize⟩
+
+theorem tile_of_wellFramed {min : Nat} {pt : UInt8} {bs : Bytes} (h : WellFramed min pt bs) : Tile bs := by
+  rw [Read.wellFramed_iff] at h
+  exact ⟨h.2.1, h.2.2.2.2.1⟩
+
+open Rtcp.Proofs.Read Rtcp.Proofs.RT in
+theorem wellFramed_packet (min : Nat) (pt : UInt8) (c : Nat) (p : UInt8) (body : Bytes) (hf : Fits p body)
+    (hmin : min ≤ 4 + body.length + p.toNat) : WellFramed min pt (packet pt c p body) := by
+  rw [Read.wellFramed_iff]
+  refine ⟨by rw [packet_length]; exact hmin, packet_len4 pt c p body, version_packet pt c p body,
+    ptype_packet pt c p body, lengthField_packet pt c p body hf.hpad hf.hbody hf.hsize, ?_⟩
+  rw [pbit_packet]
+  intro hp
+  have hp' : p ≠ 0 := by simpa using hp
+  rw [lastByte_packet _ _ _ _ hp']
+  exact hp'
 
 theorem sr_image_tile (b : SrBuilder) (h : srRules b = []) :
     Tile (srImage b) ∧ Packet.parse (srImage b) = .ok (.sr (srImage b)) := by
-  sorry
+  have hp := (sr_roundtrip (ε := Empty) b h).1
+  have ht : Tile (srImage b) := tile_of_wellFramed ((sr_parse_ok_iff _ _).mp hp).2.1
+  refine ⟨ht, ?_⟩
+  have hpt : ptype (srImage b) = 200 := RT.ptype_packet _ _ _ _
+  rw [packet_parse_eq _ ht.1, hpt]
+  show Packet.sr <$> Sr.parse (srImage b) = _
+  rw [hp, R.map_ok]
 
 theorem rr_image_tile (b : RrBuilder) (h : rrRules b = []) :
     Tile (rrImage b) ∧ Packet.parse (rrImage b) = .ok (.rr (rrImage b)) := by
-  sorry
+  have hp := (rr_roundtrip (ε := Empty) b h).1
+  have ht : Tile (rrImage b) := tile_of_wellFramed ((rr_parse_ok_iff _ _).mp hp).2.1
+  refine ⟨ht, ?_⟩
+  have hpt : ptype (rrImage b) = 201 := RT.ptype_packet _ _ _ _
+  rw [packet_parse_eq _ ht.1, hpt]
+  show Packet.rr <$> Rr.parse (rrImage b) = _
+  rw [hp, R.map_ok]
 
 theorem bye_image_tile (b : ByeBuilder) (h : byeRules b = []) :
     Tile (byeImage b) ∧ Packet.parse (byeImage b) = .ok (.bye (byeImage b)) := by
-  sorry
+  have hp := (bye_roundtrip (ε := Empty) b h).1
+  have ht : Tile (byeImage b) := tile_of_wellFramed ((bye_parse_ok_iff _ _).mp hp).2.1
+  refine ⟨ht, ?_⟩
+  have hpt : ptype (byeImage b) = 203 := RT.ptype_packet _ _ _ _
+  rw [packet_parse_eq _ ht.1, hpt]
+  show Packet.bye <$> Bye.parse (byeImage b) = _
+  rw [hp, R.map_ok]
 
 theorem app_image_tile (b : AppBuilder) (h : appRules b = []) :
     Tile (appImage b) ∧ Packet.parse (appImage b) = .ok (.app (appImage b)) := by
-  sorry
+  have hp := (app_roundtrip (ε := Empty) b h).1
+  have ht : Tile (appImage b) := tile_of_wellFramed ((app_parse_ok_iff _ _).mp hp).2.1
+  refine ⟨ht, ?_⟩
+  have hpt : ptype (appImage b) = 204 := RT.ptype_packet _ _ _ _
+  rw [packet_parse_eq _ ht.1, hpt]
+  show Packet.app <$> App.parse (appImage b) = _
+  rw [hp, R.map_ok]
 
 theorem sdes_image_tile (b : SdesBuilder) (h : sdesRules b = [])
     (hz : ∀ c ∈ b.chunks, ∀ it ∈ c.items, it.type ≠ 0) :
     Tile (sdesImage b) ∧ ∃ v, Packet.parse (sdesImage b) = .ok (.sdes v) ∧ v.data = sdesImage b := by
-  sorry
+  obtain ⟨hp4, _, hsize⟩ := SdesEnc.sdesRules_nil b h
+  have hmod := SdesEnc.chunks_length_mod b.chunks
+  have ht : Tile (sdesImage b) := tile_packet 202 _ _ _ ⟨hp4, hmod, hsize⟩
+  refine ⟨ht, ?_⟩
+  obtain ⟨v, hp, _⟩ := sdes_roundtrip (ε := Empty) b h hz
+  refine ⟨v, ?_, sdes_parse_data _ _ hp⟩
+  have hpt : ptype (sdesImage b) = 202 := RT.ptype_packet _ _ _ _
+  rw [packet_parse_eq _ ht.1, hpt]
+  show Packet.sdes <$> Sdes.parse (sdesImage b) = _
+  rw [hp, R.map_ok]
 
 theorem fb_image_tile (k : FbKind) (f : FciB) (p : UInt8) (s m : UInt32) (h : fbRules k f p = []) :
     Tile (fbImage k f p s m) ∧
     Packet.parse (fbImage k f p s m) =
       .ok (match k with | .transport => .tfb (fbImage k f p s m) | .payload => .pfb (fbImage k f p s m)) := by
-  sorry
+  have hrules : p.toNat % 4 = 0 ∧ 12 + (fciImage f).length + p.toNat ≤ 262144 := by
+    unfold fbRules at h
+    simp only [List.append_eq_nil_iff] at h
+    obtain ⟨⟨⟨h1, h2⟩, h3⟩, h5⟩ := h
+    simp only [h1, h2, h3] at h5
+    unfold padRule at h1
+    unfold sizeRule at h5
+    refine ⟨?_, ?_⟩
+    · by_cases hh : p.toNat % 4 = 0
+      · exact hh
+      · simp [hh] at h1
+    · by_cases hh : 12 + (fciImage f).length + p.toNat > 262144
+      · simp [hh] at h5
+      · omega
+  obtain ⟨hp, hsz⟩ := hrules
+  have hfl := fciImage_len_mod4 f
+  generalize hbody : be32 s ++ be32 m ++ fciImage f = body
+  have himg : fbImage k f p s m = packet k.pt (fciFormat f) p body := by
+    rw [← hbody]; rfl
+  have hbl : body.length = 8 + (fciImage f).length := by
+    rw [← hbody]; simp; omega
+  have hf : RT.Fits p body := ⟨hp, by omega, by omega⟩
+  rw [himg]
+  have ht := tile_packet k.pt (fciFormat f) p body hf
+  refine ⟨ht, ?_⟩
+  have hwf := wellFramed_packet 12 k.pt (fciFormat f) p body hf (by omega)
+  have hparse : Fb.parse k (packet k.pt (fciFormat f) p body) = .ok (packet k.pt (fciFormat f) p body) := by
+    rw [fb_parse_ok_iff]
+    refine ⟨rfl, hwf, ?_⟩
+    rw [RT.padLen_packet, packet_length]; omega
+  rw [packet_parse_eq _ ht.1, RT.ptype_packet]
+  cases k with
+  | transport =>
+    show Packet.tfb <$> Fb.parse .transport _ = _
+    rw [hparse, R.map_ok]
+  | payload =>
+    show Packet.pfb <$> Fb.parse .payload _ = _
+    rw [hparse, R.map_ok]
 
 theorem unknown_image_tile (b : UnknownBuilder) (h : unknownRules b = []) :
     Tile (unknownImage b) := by
-  sorry
+  have hrules : b.padding.toNat % 4 = 0 ∧ b.data.length % 4 = 0 ∧
+      4 + b.data.length + b.padding.toNat ≤ 262144 := by
+    unfold unknownRules at h
+    simp only [List.append_eq_nil_iff] at h
+    obtain ⟨⟨⟨h1, h2⟩, h3⟩, h5⟩ := h
+    simp only [h1, h2, h3] at h5
+    unfold padRule at h2
+    unfold sizeRule at h5
+    refine ⟨?_, ?_, ?_⟩
+    · by_cases hh : b.padding.toNat % 4 = 0
+      · exact hh
+      · simp [hh] at h2
+    · by_cases hh : b.data.length % 4 = 0
+      · exact hh
+      · simp [hh] at h3
+    · by_cases hh : 4 + b.data.length + b.padding.toNat > 262144
+      · simp [hh] at h5
+      · omega
+  obtain ⟨hp, hd, hsz⟩ := hrules
+  exact tile_packet b.type b.count.toNat b.padding b.data ⟨hp, hd, hsz⟩
 
 theorem custom_image_tile (b : CustomBuilder) (h : customRules b = []) (h4 : 4 ≤ b.min) (hm : b.min % 4 = 0)
     (hs : b.bodyEnd + b.padding.toNat ≤ 262144) : Tile (customImage b) := by
-  sorry
+  have hp := (custom_roundtrip (ε := Empty) b h h4 hm hs).1
+  exact tile_of_wellFramed ((custom_parse_ok_iff _ _ h4 _ _).mp hp).2.1
 
 end Rtcp.Proofs
